@@ -3,8 +3,8 @@ from checks_path import *  # noqa
 from seq_common import run_seq, replay_seq
 
 PROPERTY = 'C01'
-GEN = ['LogicVerify']
-PROPS = ['SalsaVerif.Props.C01', 'SalsaVerif.Props.C01Core3', 'SalsaVerif.Props.GenLogicVerify']
+GEN = ['LogicVerify', 'LogicRuntime']
+PROPS = ['SalsaVerif.Props.C01', 'SalsaVerif.Props.C01Core3', 'SalsaVerif.Props.GenLogicVerify', 'SalsaVerif.Props.GenLogicRuntime']
 EXPLANATION = ('Soundness theorem of the Lean engine model `Core` (written function-by-function after fetch / maybe_changed_after / '
                'execute / backdate): for every well-formed program and EVERY history of writes, synthetic writes and requests, each '
                'request returns the from-scratch semantics. Proved for the fragment named in the theorem (`c01_run_sound_partial`: plain '
